@@ -143,7 +143,9 @@ Definition truth_dev_ok (x : st) (l : list Z) : bool :=
 Definition step (c : cfg) (x : st) (l : label) : option st :=
   match l with
   | LCount d n =>
-      if negb (isdev c d && (0 <=? n) && (n <=? cap c d)) then None else
+      (* an entrance-counted device may count capacity + 1 while its own ejected ball is still counted *)
+      let extra := if blfc (f x fS d) && (f x fDEC d =? 0) then 1 else 0 in
+      if negb (isdev c d && (0 <=? n) && (n <=? cap c d + extra)) then None else
       let old := f x fC d in
       let x1 := setf x fC d n in
       if old <=? n then Some (addf x1 fU d (n - old))
@@ -163,7 +165,7 @@ Definition step (c : cfg) (x : st) (l : label) : option st :=
       else if s =? FC then guard (old =? BL) (setf x fS d s)
       else if blfc old then
         (* the eject is over: the booked ball must have been taken off the own count *)
-        if negb ((f x fCF d =? 0) && negb (memz d (pfq x))) then None else
+        if negb ((f x fCF d =? 0) && negb (memz d (pfq x)) && (f x fC d <=? cap c d)) then None else
         let t := f x fTG d in
         if t =? PF then Some x1 else Some (setinc x1 t (remove1 d (inc x t)))
       else Some x1
@@ -219,12 +221,16 @@ Definition step (c : cfg) (x : st) (l : label) : option st :=
       if negb (isdev c d) then None else
       let x1 := addz (addz (addf x fA d (-1)) zPA 1) zB 1 in
       if 1 <=? f x fM d then Some (addf x1 fM d (-1))
-      else let s := z x zLASTF in guard (isdev c s) (setz (addf x1 fCF s 1) zLASTF NONE)
+      else let s := z x zLASTF in
+           if isdev c s then Some (setz (addf x1 fCF s 1) zLASTF NONE)
+           else Some (addf x1 fM d (-1))   (* double eject: _eject_ball books lost_idle_ball BEFORE it sets the
+                                              recounted value, so the pending count goes negative first *)
   | LFoundNew => Some (addz (addz (addz x zK 1) zB 1) zPA 1)
   | LMissingEv d => guard (isdev c d) x
   | LBroken d => guard (isdev c d) x
   | LPulse d =>
-      if negb (isdev c d && (f x fS d =? EJECTING)) then None else
+      (* (an entrance-counted device is in ball_left 10 ms after the command; the driver may delay the pulse) *)
+      if negb (isdev c d && ((f x fS d =? EJECTING) || (f x fS d =? BL))) then None else
       let t := f x fTG d in
       if t =? PF then Some x
       else guard (isdev c t && (Z.of_nat (length (inc x t)) <? cap c t - f x fC t)) x
